@@ -16,6 +16,15 @@ def c22 (stream : String) (fs : List String) : String :=
     let us := ((used.splitOn ",").filter (· ≠ "")).map (fun x => x.toNat?.getD 0)
     let out := validateUnused [] 1 vs (fun n => us.contains n) List.reverse
     ",".intercalate (out.map (fun p => toString p.2))
+  | "restore", [types, refs] =>
+    -- keys of `schema.types` before validation, the built-in scalars referenced; answer: the keys afterwards,
+    -- the restored ones (appended in hash order) sorted
+    let nums (x : String) := ((x.splitOn ",").filter (· ≠ "")).map (fun y => y.toNat?.getD 0)
+    let ts := nums types
+    let final := finalTypes [0, 1, 2, 3, 4] ts (nums refs) id
+    let kept := final.filter (fun t => ts.contains t)
+    let restored := (final.filter (fun t => !ts.contains t)).mergeSort (fun a b => a ≤ b)
+    ",".intercalate ((kept ++ restored).map toString)
   | _, _ => "bad-case"
 
 end Driver
